@@ -50,11 +50,16 @@ func verifProbeParseFloatOK(s string) bool {
 	v, err := strconv.ParseFloat(s, 64)
 	return err == nil && v == 2
 }
-func verifProbeFloorNeg(x float64) bool { return x == -0.5 && math.Floor(x) == -1 }
-func verifProbeAbs(x float64) bool      { return x == -2 && math.Abs(x) == 2 }
-func verifProbeErrorsNew() bool         { return errors.New("x") != nil }
-func verifProbeOpenFail(p string) bool  { f, err := os.Open(p); return err != nil && f == nil }
-func verifProbeOpenOK(p string) bool    { f, err := os.Open(p); return err == nil && f != nil }
+func verifProbeFloorNeg(x float64) bool   { return x == -0.5 && math.Floor(x) == -1 }
+func verifProbeAbs(x float64) bool        { return x == -2 && math.Abs(x) == 2 }
+func verifProbeNaNCompare(x float64) bool { return !(x <= 1) && !(x > 1) }
+func verifProbeNaNParse(s string) bool {
+	v, err := strconv.ParseFloat(s, 64)
+	return err == nil && v != v
+}
+func verifProbeErrorsNew() bool        { return errors.New("x") != nil }
+func verifProbeOpenFail(p string) bool { f, err := os.Open(p); return err != nil && f == nil }
+func verifProbeOpenOK(p string) bool   { f, err := os.Open(p); return err == nil && f != nil }
 func verifProbeWriteFail(w io.Writer) bool {
 	_, err := io.WriteString(w, "x")
 	return w != nil && err != nil
